@@ -123,7 +123,7 @@ func VerifyFunc(p *Program, fc *FuncContract) (g *Gen, err error) {
 		if c.Kind != "ensures" {
 			continue
 		}
-		o := &Oblig{Name: f.obName("ensures", c, k), Kind: "ensures", Pos: f.pos(fn.Pos()), Text: c.Text}
+		o := &Oblig{Name: f.obName("ensures", c, k), Kind: "ensures", Pos: f.pos(fn.Pos()), Text: c.Text, ClauseProps: c.Props}
 		var goals []string
 		for r := range f.retReach {
 			env := &Env{g: g, f: f, heap: f.retHeaps[r], old: entry, bind: map[string]Val{}, results: f.retVals[r], pkg: fn.Pkg.Pkg, reach: f.retReach[r]}
